@@ -4,6 +4,21 @@ _BASE_NOTE = ("Trusted: CrossHair's symbolic models of str/int/list and z3 (for 
               "bounds per condition as written to evidence (pre: lines). Nothing is claimed outside the bounds.")
 
 CLAIMS = {
+    "C08": {
+        "technique": "bounded symbolic execution (CrossHair/z3) over schedule choice variables: the real executors and runtimes run under every completion order of in-flight resolver tasks (stub pool / deterministic loop) and are compared with the blocking baseline",
+        "text": "For 6 operation templates, 4 resolver kinds on 3 field groups, and 4 executor/runtime configurations, every linear order in which up to 6 pending tasks complete is decided: result done (never pending), ordered data and error multiset equal to the BlockingExecutor baseline, unexpected exceptions surface as the failure of the overall result.",
+        "note": _BASE_NOTE + " Completion orders are enumerated by the solver through schedule choice variables on a stub thread pool / deterministic event loop; callbacks are atomic (no pre-emption inside a future callback on real OS threads), which is outside the claim.",
+    },
+    "C09": {
+        "technique": "bounded symbolic execution (CrossHair/z3) over schedule choice variables on mutation operations: resolver invocation logs under every completion order vs the serial baseline",
+        "text": "5 mutation operations x failure positions x 4 configurations x every completion order of up to 7 in-flight tasks: no resolver of a later top-level field runs before the earlier field's subtree finished; failing fields do not stop later ones; response keys in document order.",
+        "note": _BASE_NOTE + " Completion orders are enumerated by the solver through schedule choice variables on a stub thread pool / deterministic event loop; callbacks are atomic (no pre-emption inside a future callback on real OS threads), which is outside the claim.",
+    },
+    "C16": {
+        "technique": "bounded symbolic execution (CrossHair/z3) over outcome, stack-size and schedule choice variables: recorded hook/middleware/resolver event logs of the real pipeline checked by a pushdown event-log checker",
+        "text": "8 request outcomes x 4 configurations x 1..3 stacked instrumentations x 0..3 middlewares x every completion order: stage hooks pair up and nest, each at most once; per resolved field one start before and one end after the resolver; middlewares once each in the documented order; stacked starts in order, ends reversed.",
+        "note": _BASE_NOTE + " Completion orders are enumerated by the solver through schedule choice variables on a stub thread pool / deterministic event loop; callbacks are atomic (no pre-emption inside a future callback on real OS threads), which is outside the claim.",
+    },
     "C18": {
         "technique": "bounded symbolic execution (CrossHair/z3) of one traversal step of the real ASTVisitor per node kind, against a grammar child table; chained visitors; dispatch totality",
         "text": "Structural induction step: for each of the 42 node kinds and up to 6 parsed instances (0/1/2 elements per list, optionals on/off), with any single direct child kept, deleted, replaced or skipped, "
